@@ -393,6 +393,111 @@ class ConcreteValidate(Target):
         return cl
 
 
+class ValidateComponent(Target):
+    """FlowIR.validate_component: the list it returns is what FlowIRConcrete.validate (above) hands to the loader.  Whatever
+    the schema check reports (unknown key, wrongly typed option: the schema walk itself is the bounded check below), every
+    dangling component reference found by validate_references, a reference used in the arguments but not declared, an
+    override for an unknown platform, a reserved component name and an unknown backend are ALL in the returned list, and a
+    schema walk that blows up is reported as a problem instead of escaping."""
+    prop = 'C11'
+    name = 'FlowIR.validate_component'
+    file = F
+    qualname = 'FlowIR.validate_component'
+    inline_class = {'cls': (F, 'FlowIR')}
+    compare_return = False
+    set_iter = 'sorted-repr'
+    trusted = ["validate_object_schema returns the list of schema problems (bounded check below)",
+               "expand_potential_component_reference / discover_reference_strings (C09) give absolute references",
+               "validate_references returns the dangling ones (under contract above)"]
+    assumptions = ["one component; each source of problems on/off independently; schema walk returning or raising; "
+                   "backends: known / unknown / variable / docker or kubernetes without image"]
+
+    def setup(self, c):
+        schema_mode = c.one_of('schema_walk', ['clean', 'problems', 'raises'])
+        schema_errors = [errors.FlowIRInconsistency('schema problem %d' % i, {}) for i in range(2)] if schema_mode == 'problems' else []
+        boom = errors.FlowIRInconsistency('schema walk failed', {})
+        missing = ['stage0.ghost'] if c.one_of('dangling_reference', [False, True]) else []
+        undeclared = c.one_of('undeclared_reference_in_arguments', [False, True])
+        unknown_platform = c.one_of('override_for_unknown_platform', [False, True])
+        reserved = c.one_of('reserved_name', [False, True])
+        backend = c.one_of('backend', ['local', 'nonsense', '%(backend)s', 'docker-without-image', 'kubernetes-without-image',
+                                       'kubernetes-empty-image', 'kubernetes-with-image', None])
+        with_ids = c.one_of('component_ids_given', [True, False])
+        imported = c.one_of('is_import', [False, True])
+        comp = {'stage': 0, 'name': 'data' if reserved else 'comp', 'references': ['stage0.other:ref'],
+                'command': {'arguments': 'stage0.other:ref' + (' stage0.undeclared:ref' if undeclared else '')}}
+        if backend is not None:
+            cfg = {'config': {'backend': backend.split('-')[0]}}
+            if backend == 'kubernetes-empty-image':
+                cfg['kubernetes'] = {'image': ''}
+            if backend == 'kubernetes-with-image':
+                cfg['kubernetes'] = {'image': 'registry/image:tag'}
+            comp['resourceManager'] = cfg
+        if unknown_platform:
+            comp['override'] = {'mars': {}}
+        if imported:
+            comp['$import'] = 'doc'
+        def discover(c, arguments, stage, ids, out, *a, **k):
+            out['stage0.other:ref'] = 'stage0.other:ref'
+            if undeclared:
+                out['stage0.undeclared:ref'] = 'stage0.undeclared:ref'
+            return arguments
+        cls = Obj('FlowIR', SpecialFolders=list(FlowIR.SpecialFolders), Backends=list(FlowIR.Backends),
+                  FieldPlatforms=FlowIR.FieldPlatforms, VariablePattern=FlowIR.VariablePattern,
+                  expand_potential_component_reference=Extern('expand_potential_component_reference', lambda c, r, *a, **k: r),
+                  discover_reference_strings=Extern('discover_reference_strings', discover),
+                  validate_references=Extern('validate_references', lambda c, refs, *a, **k: list(missing)),
+                  organize_identifiers_to_stages=Extern('organize_identifiers_to_stages', lambda c, ids: {0: ['comp', 'other']}),
+                  aggregate_identifiers_to_list=Extern('aggregate_identifiers_to_list', lambda c, ids: [(0, 'comp'), (0, 'other')]),
+                  type_flowir_component_import=Extern('type_flowir_component_import', lambda c: 'import-schema'),
+                  type_flowir_component=Extern('type_flowir_component', lambda c, **k: 'schema'))
+        return State(args=[cls, comp], kwargs={'comp_schema': 'schema', 'component_ids': [(0, 'comp'), (0, 'other')] if with_ids else None,
+                                               'known_platforms': ['default'], 'top_level_folders': []},
+                     cls=cls, schema_mode=schema_mode, schema_errors=schema_errors, boom=boom, missing=missing, undeclared=undeclared,
+                     unknown_platform=unknown_platform, reserved=reserved, backend=backend, with_ids=with_ids, imported=imported)
+
+    def externs(self, c, st):
+        def schema(c, comp, sch, label, *a, **k):
+            if st.schema_mode == 'raises':
+                c.raise_(errors.FlowIRInconsistency, 'schema walk failed', {})
+            return list(st.schema_errors)
+        return {'validate_object_schema': Extern('validate_object_schema', schema),
+                'traceback.format_exc': Extern('traceback.format_exc', lambda c: '<tb>')}
+
+    def ensures(self, c, st, out):
+        clean = (st.schema_mode == 'clean' and not st.reserved and (st.imported or (
+                 not st.unknown_platform and not (st.missing and st.with_ids) and not (st.undeclared and st.with_ids) and
+                 st.backend in ('local', '%(backend)s', 'kubernetes-with-image', None))))
+        if out.kind == 'raise':
+            # an exception out of the validator still rejects the workflow: the loader's funnel (_initialize, under
+            # contract above) turns ANY exception into the invalid-configuration error.  What must not happen is a
+            # component without problems being rejected that way.
+            return [('a-clean-component-reports-nothing', not clean)]
+        got = list(out.value)
+
+        def has(cls_):
+            return any(_is_exc(g, cls_) for g in got)
+        cl = [('every-schema-problem-reaches-the-caller', all(any(e is g for g in got) for e in st.schema_errors)),
+              ('a-failing-schema-walk-is-a-reported-problem', has(errors.FlowIRInconsistency) if st.schema_mode == 'raises' else True)]
+        gave_up = st.schema_mode == 'raises' and not st.imported       # documented early return: the component is reported invalid
+        if not gave_up:
+            cl.append(('a-reserved-name-is-rejected', (len(got) >= 1) if st.reserved else True))
+        if not gave_up and not st.imported:
+            cl += [('an-override-for-an-unknown-platform-is-reported', has(errors.FlowIRPlatformUnknown) if st.unknown_platform else True),
+                   ('a-dangling-component-reference-is-reported',
+                    has(errors.FlowIRReferenceToUnknownComponent) if (st.missing and st.with_ids) else True),
+                   ('an-undeclared-reference-in-the-arguments-is-reported',
+                    has(errors.FlowIRUnknownReferenceInArguments) if (st.undeclared and st.with_ids) else True),
+                   ('an-unknown-backend-or-a-missing-image-is-reported',
+                    has(errors.FlowIRInvalidComponent) if st.backend in ('nonsense', 'docker-without-image', 'kubernetes-without-image',
+                                                                        'kubernetes-empty-image') else True)]
+        cl.append(('a-clean-component-reports-nothing', (len(got) == 0) if clean else True))
+        return cl
+
+    def cross_compare(self, *a):
+        return []
+
+
 CycleCheck.alternatives = {'a-cycle-is-rejected': 'cycle-rejection'}
 CycleCheck.alt_case = lambda self, c, st: st.shape
 
@@ -466,6 +571,6 @@ class SchemaRejectsBounded:
 
 
 TARGETS = [ValidateReferences(), DuplicateIdentifiers(), TryReportErrors(), InitializeFunnel(), CycleCheck(),
-           PropagateReplicateCycles(), ConcreteValidate()]
+           PropagateReplicateCycles(), ConcreteValidate(), ValidateComponent()]
 LEMMAS = []
 BOUNDED = [SchemaRejectsBounded()]
